@@ -29,6 +29,7 @@ def suites : List (String × (String → String → CaseResult)) :=
   [("chunks", ChunkSuite.runCase)] ++
   [("consts", ConstsSuite.runCase)] ++
   [("values", ValuesSuite.runCase)] ++
+  [("extcache", ExtCacheSuite.runCase)] ++
   []
 
 structure DAcc where
